@@ -100,7 +100,7 @@ theorem Unc.trans {x y z : Pv} (h1 : Unc x y) (h2 : Unc y z) : Unc x z := by
 /-- Every frame lets an unclassifiable panic value through (an RFW frame wraps an uncatchable error once more; a
 foreign panic is never touched), and logs nothing: no catch block, no finally block, no iterator return() runs. -/
 theorem applyFrame_unclassifiable (idx : Nat) (f : Frame) (cjs : Bool) {x : Pv}
-    (h : x.unclassifiable = true) (o : StackTop) :
+    (h : x.unclassifiable = true) (hd : f.dropsErrors = false) (o : StackTop) :
     ∃ x' o', applyFrame idx f cjs (.panic x o) = (.panic x' o', []) ∧ Unc x x' ∧ (f.rewraps = false → x' = x) := by
   have hv : vmTry (.panic x o) = .panic x o := by
     cases x <;> simp [Pv.unclassifiable] at h <;>
@@ -135,7 +135,7 @@ theorem applyFrame_unclassifiable (idx : Nat) (f : Frame) (cjs : Bool) {x : Pv}
       · intro hrw; simp [Frame.rewraps] at hrw
     · refine ⟨.goErr e, ?_⟩
       have hu := Unc.refl h
-      cases f <;> simp at hf <;>
+      cases f <;> simp at hf <;> simp [Frame.dropsErrors] at hd <;>
         simp [applyFrame, jsFrame_unclassifiable _ _ h, callable_unclassifiable _ h, hr, panicErr, returnErr,
           wrapJSFuncE, wrapJSFuncN, hs, hs', hi, runProgram_eq_runWrapped, runWrapped, vmTry_jsCall, hv, hj,
           ErrVal.toPv, wrapReflectErr, he, panicValue, hht, hu, Frame.rewraps, hv']
@@ -146,7 +146,7 @@ theorem applyFrame_normal (idx : Nat) (f : Frame) (cjs : Bool) :
     (applyFrame idx f cjs .normal).1 = .normal := by
   cases f <;> cases cjs <;>
     simp [applyFrame, jsFrame, callable, invoke, runWrapped, panicErr, returnErr, wrapReflectErr, wrapJSFuncE,
-      wrapJSFuncN, shim, runProgram, runProgram.handleThrowOpt, panicValue, returnWrapped]
+      wrapJSFuncN, shim, runProgram, runProgram.handleThrowOpt, panicValue, returnWrapped, JsKind.hasFinally]
 
 theorem applyFrame_normal_log (idx : Nat) (f : Frame) (cjs : Bool) :
     ∀ l ∈ (applyFrame idx f cjs .normal).2, l = ⟨idx, .fin⟩ := by
@@ -155,6 +155,8 @@ theorem applyFrame_normal_log (idx : Nat) (f : Frame) (cjs : Bool) :
     cases k <;> simp [jsFrame, JsKind.hasFinally]
   · simp [jsFrame, JsKind.hasFinally]
   · cases cjs <;> simp [callable, invoke, runWrapped, panicErr]
+  · simp [jsFrame, JsKind.hasFinally]
+  · cases cjs <;> simp [callable, invoke, runWrapped]
 
 theorem evalSeg_normal (s : Seg) (ijs : Bool) : (evalSeg s .normal ijs).1 = .normal := by
   induction s with
@@ -175,15 +177,17 @@ theorem evalSeg_normal_log (s : Seg) (ijs : Bool) : ∀ l ∈ (evalSeg s .normal
     · rw [evalSeg_normal] at hl
       rw [applyFrame_normal_log _ _ _ l hl]
 
-theorem evalSeg_unclassifiable (s : Seg) (ijs : Bool) {x : Pv} (h : x.unclassifiable = true) (o : StackTop) :
+theorem evalSeg_unclassifiable (s : Seg) (ijs : Bool) {x : Pv} (h : x.unclassifiable = true)
+    (hdr : ∀ q ∈ s, q.2.dropsErrors = false) (o : StackTop) :
     ∃ x' o', evalSeg s (.panic x o) ijs = (.panic x' o', []) ∧ Unc x x' ∧
       ((∀ q ∈ s, q.2.rewraps = false) → x' = x) := by
   induction s with
   | nil => exact ⟨x, o, rfl, Unc.refl h, fun _ => rfl⟩
   | cons hd tl ih =>
     obtain ⟨i, f⟩ := hd
-    obtain ⟨x1, o1, h1, u1, r1⟩ := ih
-    obtain ⟨x2, o2, h2, u2, r2⟩ := applyFrame_unclassifiable i f (headIsJS tl ijs) u1.1 o1
+    obtain ⟨x1, o1, h1, u1, r1⟩ := ih (fun q hq => hdr q (List.mem_cons_of_mem _ hq))
+    obtain ⟨x2, o2, h2, u2, r2⟩ := applyFrame_unclassifiable i f (headIsJS tl ijs) u1.1
+      (hdr (i, f) (List.mem_cons_self ..)) o1
     refine ⟨x2, o2, by simp [evalSeg, h1, h2], u1.trans u2, ?_⟩
     intro hq
     rw [r2 (hq (i, f) (List.mem_cons_self ..)), r1 (fun q hq' => hq q (List.mem_cons_of_mem _ hq'))]
@@ -214,20 +218,21 @@ theorem recover_toHost (x : Pv) (o : StackTop) : (recoverUncatchable x o).toHost
 escapes `leave()` unobserved. -/
 theorem runJobs_unclassifiable (p : Payload) {x : Pv} {o : StackTop} (hp : p.flow = .panic x o)
     (h : x.unclassifiable = true) :
-    ∀ ss : List Seg, ss ≠ [] → ∃ x', Unc x x' ∧ ((∀ s ∈ ss, ∀ q ∈ s, q.2.rewraps = false) → x' = x) ∧
+    ∀ ss : List Seg, ss ≠ [] → (∀ s ∈ ss, ∀ q ∈ s, q.2.dropsErrors = false) →
+      ∃ x', Unc x x' ∧ ((∀ s ∈ ss, ∀ q ∈ s, q.2.rewraps = false) → x' = x) ∧
       runJobs p ss = ⟨escapeHost x', [], normalLogs ss.dropLast⟩ := by
   intro ss
   induction ss with
   | nil => intro hne; exact absurd rfl hne
   | cons s tl ih =>
-    intro _
+    intro _ hd
     cases tl with
     | nil =>
-      obtain ⟨x', o', he, hu, hr⟩ := evalSeg_unclassifiable s p.isJS h o
+      obtain ⟨x', o', he, hu, hr⟩ := evalSeg_unclassifiable s p.isJS h (hd s (List.mem_cons_self ..)) o
       refine ⟨x', hu, fun hq => hr (hq s (List.mem_cons_self ..)), ?_⟩
       simp [runJobs, segInner, hp, he, vmTry_invoke_unclassifiable _ hu.1, recover_toHost, normalLogs]
     | cons s2 tl2 =>
-      obtain ⟨x', hu, hr, ih'⟩ := ih (by simp)
+      obtain ⟨x', hu, hr, ih'⟩ := ih (by simp) (fun s' hs' => hd s' (List.mem_cons_of_mem _ hs'))
       refine ⟨x', hu, fun hq => hr (fun s' hs' => hq s' (List.mem_cons_of_mem _ hs')), ?_⟩
       have hn := evalSeg_normal s true
       simp only [runJobs, segInner, List.isEmpty_cons, Bool.false_eq_true, ↓reduceIte, hn] at ih' ⊢
@@ -256,16 +261,18 @@ theorem runProgram_normal : runProgram .normal = .ok := by
 
 /-- Master theorem for panic values that are not JS exceptions (uncatchable errors and foreign panics). -/
 theorem hostRun_unclassifiable (entry : Entry) (chain : List Frame) (p : Payload) {x : Pv} {o : StackTop}
-    (hp : p.flow = .panic x o) (h : x.unclassifiable = true) :
+    (hp : p.flow = .panic x o) (h : x.unclassifiable = true)
+    (hd : ∀ s ∈ allSegs chain, ∀ q ∈ s, q.2.dropsErrors = false) :
     ∃ x', Unc x x' ∧ ((∀ s ∈ allSegs chain, ∀ q ∈ s, q.2.rewraps = false) → x' = x) ∧
       (hostRun entry chain p).host = escapeHost x' ∧ (hostRun entry chain p).rej = [] ∧
       (hostRun entry chain p).log = normalLogs (allSegs chain).dropLast := by
-  simp only [hostRun, allSegs]
-  generalize splitSegs (indexed 0 chain) = sg
+  simp only [hostRun, allSegs] at hd ⊢
+  generalize splitSegs (indexed 0 chain) = sg at hd ⊢
   obtain ⟨s0, ss⟩ := sg
+  simp only at hd
   cases ss with
   | nil =>
-    obtain ⟨x', o', he, hu, hrw⟩ := evalSeg_unclassifiable s0 p.isJS h o
+    obtain ⟨x', o', he, hu, hrw⟩ := evalSeg_unclassifiable s0 p.isJS h (hd s0 (List.mem_cons_self ..)) o
     refine ⟨x', hu, fun hq => hrw (hq s0 (List.mem_cons_self ..)), ?_⟩
     have h' := hu.1
     have hc : ∀ b, callable b (.panic x' o') = recoverUncatchable x' o' := fun b => callable_unclassifiable b h' o'
@@ -282,6 +289,7 @@ theorem hostRun_unclassifiable (entry : Entry) (chain : List Frame) (p : Payload
       cases entry <;> simp [hq, h1, ranLeave, finish, wrapJSFuncE, CallRes.toHost, normalLogs]
   | cons s1 tl =>
     obtain ⟨x', hu, hrw, hj⟩ := runJobs_unclassifiable p hp h (s1 :: tl) (by simp)
+      (fun s hs => hd s (List.mem_cons_of_mem _ hs))
     refine ⟨x', hu, fun hq => hrw (fun s hs => hq s (List.mem_cons_of_mem _ hs)), ?_⟩
     have hn := evalSeg_normal s0 true
     have hf : ∀ b, firstCall entry b .normal = .ok := by
